@@ -42,8 +42,8 @@ def check(ctx):
 
     def lst(field, getter):
         F = "Iterator::find(ERR.%s,|1|{(C1_0.0==%s.0.path)})" % (field, D)
-        return ("if(Not(HashSet::is_empty(%s(%s.1)))){match(%s){v1::Some($)=>Extend::extend(%s@v1::Some.0.1,HashSet::iter(%s(%s.1)));"
-                "v1::None=>Vec::push(ERR.%s,(%s.0.path,%s(%s.1)))}}else{'()'}") % (getter, D, F, F, getter, D, field, D, getter, D)
+        return ("if(Not(HashSet::is_empty(%s(%s.1)))){if(let v1::Some($)=%s){Extend::extend(%s@v1::Some.0.1,HashSet::iter(%s(%s.1)))}"
+                "else{Vec::push(ERR.%s,(%s.0.path,%s(%s.1)))}}else{'()'}") % (getter, D, F, F, getter, D, field, D, getter, D)
     A = lst("attributes_for_unknown_types", "Derives::attributes")
     Dv = lst("derives_for_unknown_types", "Derives::derives")
     SUB = ("for(TypeSubstitutes::iter(P%d)){if(Not(validation::registry_contains_type_path(P%d,%s.0))){Vec::push(ERR.substitutes_for_unknown_types,"
